@@ -113,24 +113,36 @@ def resolve1(x: object, default: object = None) -> Any:
     If this is an array or dictionary, it may still contains
     some indirect objects inside.
     """
+    hops = 0
     while isinstance(x, PDFObjRef):
         x = x.resolve(default=default)
+        hops += 1
+        if hops > MAX_REFERENCE_CHAIN:
+            # a reference that leads back to itself never ends
+            return default
     return x
 
 
-def resolve_all(x: object, default: object = None) -> Any:
+# Longest chain of indirect references (an object that is itself a reference)
+# that is followed; a longer one is taken for a cycle.
+MAX_REFERENCE_CHAIN = 100
+
+
+def resolve_all(x: object, default: object = None, _depth: int = 0) -> Any:
     """Recursively resolves the given object and all the internals.
 
     Make sure there is no indirect reference within the nested object.
     This procedure might be slow.
     """
-    while isinstance(x, PDFObjRef):
-        x = x.resolve(default=default)
+    x = resolve1(x, default=default)
+    if _depth > MAX_REFERENCE_CHAIN:
+        # an object that contains itself through references has no end
+        return default
     if isinstance(x, list):
-        x = [resolve_all(v, default=default) for v in x]
+        x = [resolve_all(v, default=default, _depth=_depth + 1) for v in x]
     elif isinstance(x, dict):
         for k, v in x.items():
-            x[k] = resolve_all(v, default=default)
+            x[k] = resolve_all(v, default=default, _depth=_depth + 1)
     return x
 
 
